@@ -131,11 +131,20 @@ Print Assumptions C19_full_trace_refines_lifecycle.
 (** ... and outside pay-to-script-hash no stack callback may fall between a script change (or the end of a step)
     and the next opcode *)
 Theorem C19_no_stack_callback_after_script_change : forall tr1 e tr2 q,
-  frun false (QStart, false) tr1 = Some (q, false) ->
+  frun false (QStart, MNormal) tr1 = Some (q, MNormal) ->
   (q = QACe \/ q = QACr \/ q = QBCe \/ q = QBCr \/ q = QLoop \/ q = QBS \/ q = QBE) ->
   (e = FPush \/ e = FPop \/ e = FPopFail) -> full_lifecycle_ok false (tr1 ++ e :: tr2) = false.
 Proof. exact no_stack_callback_after_script_change. Qed.
 Print Assumptions C19_no_stack_callback_after_script_change.
+
+(** ... and once the alt stack is being dropped at the end of a script the step cannot fail any more: whatever can
+    fail it (stack size, unbalanced conditional) is checked before the stacks are touched, so a debugger never sees
+    stack callbacks of a step between its AfterExecuteOpcode and an error *)
+Theorem C19_no_failure_after_end_of_script_cleanup : forall p2sh tr1 tr2,
+  frun p2sh (QStart, MNormal) tr1 = Some (QAO, MNormal) ->
+  full_lifecycle_ok p2sh (tr1 ++ FPop :: FL AE :: tr2) = false.
+Proof. exact no_failure_after_end_of_script_cleanup. Qed.
+Print Assumptions C19_no_failure_after_end_of_script_cleanup.
 
 Example C19_full_traces :
   (* OP_1 | OP_1 OP_EQUAL: pushes inside opcodes, pops in OP_EQUAL and in the final check *)
@@ -149,5 +158,10 @@ Example C19_full_traces :
   full_lifecycle_ok false [FL BE; FL BS; FL BO; FPopFail; FL AE; FL EER] = true /\
   full_lifecycle_ok false [FL BE; FL BS; FL BO; FPopFail; FL AO; FL AS; FL AE; FL EER] = false /\
   (* a push between two steps *)
-  full_lifecycle_ok false [FL BE; FL BS; FL BO; FL AO; FL AS; FPush; FL BS; FL BO; FL AE; FL EER] = false.
+  full_lifecycle_ok false [FL BE; FL BS; FL BO; FL AO; FL AS; FPush; FL BS; FL BO; FL AE; FL EER] = false /\
+  (* OP_1 | OP_5 OP_TOALTSTACK OP_IF: the script ends inside the conditional; the alt stack is NOT dropped first *)
+  full_lifecycle_ok false [FL BE; FL BS; FL BO; FPush; FL AO; FL BC; FL AC; FL AS; FL BS; FL BO; FPush; FL AO; FL AS;
+                           FL BS; FL BO; FPop; FPush; FL AO; FL AS; FL BS; FL BO; FPop; FL AO; FL AE; FL EER] = true /\
+  full_lifecycle_ok false [FL BE; FL BS; FL BO; FPush; FL AO; FL BC; FL AC; FL AS; FL BS; FL BO; FPush; FL AO; FL AS;
+                           FL BS; FL BO; FPop; FPush; FL AO; FL AS; FL BS; FL BO; FPop; FL AO; FPop; FL AE; FL EER] = false.
 Proof. vm_compute. repeat split; reflexivity. Qed.
